@@ -9,6 +9,7 @@ import "github.com/microcosm-cc/bluemonday"
 const Available = false
 
 func SetPoint(f func(id int))                   {}
+func Point(id int)                              {}
 func SetMapOrder(f func(site, n int) []int)     {}
 func SetLoopState(f func(render func() string)) {}
 func Snapshot(p *bluemonday.Policy) string      { return "" }
